@@ -294,33 +294,42 @@ class C11(Prop):
         process; the same objects are then run, interleaved, in this long-lived process (which has executed all
         the cases above, so any process-wide cache or class attribute is as polluted as it gets)."""
         rng = ctx.rng
-        groups = 10 if ctx.tier == 'quick' else 40
+        groups = 16 if ctx.tier == 'quick' else 64
         here = os.path.dirname(os.path.dirname(os.path.dirname(os.path.abspath(__file__))))
         code = ('import sys,os,json; sys.stdout=open(os.devnull,"w"); from rtverif.props import c11; '
                 'sys.__stdout__.write(json.dumps(c11.run_solo(json.loads(sys.stdin.read())), default=repr))')
         env = dict(os.environ, PYTHONPATH=drive.REPO + os.pathsep + here)
+        has_ivl = lambda o: any(gg[1] is not None for gg in lang.walk(lang.from_jsonable(o['formula'])))
         for g in range(groups):
+            # group kinds: 0 random objects; 1 discrete objects, same text, confusable sampling periods;
+            # 2 dense objects, same text, different default units; 3 discrete objects, same text, different units
+            mode = g % 4
             k = rng.randint(2, 3)
             base = gen_obj(rng)
-            if g % 2:
-                for _ in range(200):
-                    if base['kind'].startswith('dt') and not heavy(base) and any(
-                            gg[1] is not None for gg in lang.walk(lang.from_jsonable(base['formula']))):
+            if mode:
+                want = 'ct' if mode == 2 else 'dt'
+                for _ in range(300):
+                    if base['kind'].startswith(want) and has_ivl(base) and not (mode == 1 and heavy(base)) \
+                            and len(next(iter(base['data'].values()))) >= 4:
                         break
                     base = gen_obj(rng)
             objs = [base]
             for j in range(1, k):
-                o = dict(base) if (rng.random() < 0.6 or (g % 2 and j == 1)) else gen_obj(rng)
+                o = dict(base) if (rng.random() < 0.6 or (mode and j == 1)) else gen_obj(rng)
                 objs.append(o)
             units = ['s', 'ms', 'us']
             rng.shuffle(units)
+            if mode in (2, 3):
+                # the data are on a grid of whole default units: only with 's' are the windows short enough to matter
+                units = ['s'] + [u for u in units if u != 's']
             for j, o in enumerate(objs):
-                if any(gg[1] is not None for gg in lang.walk(lang.from_jsonable(o['formula']))):
+                if has_ivl(o):
                     o['units'] = units[j % 3]
-            if g % 2 and objs[0].get('units') and objs[1]['formula'] == objs[0]['formula']:
+            if mode == 1 and objs[0].get('units') and objs[1]['formula'] == objs[0]['formula']:
                 objs[1]['units'] = objs[0]['units']
                 if confusable_periods(rng, objs[0], objs[1]):
                     ctx.count('cross-process-confusable-periods', 1)
+            ctx.count('cross-process-group-kind:%d' % mode, 1)
             procs = [subprocess.Popen([sys.executable, '-B', '-c', code], env=env, stdin=subprocess.PIPE,
                                       stdout=subprocess.PIPE, stderr=subprocess.PIPE) for _ in objs]
             refs = []
